@@ -14,7 +14,10 @@ COQ_AGREE = 'agree'
 COQ_SHARD = 100
 REPLAY_KIND = 'history'
 EXHAUSTIVE = {'quick': False, 'thorough': False}
-RULE = ('seeded random histories of 5..40 operations over 1..5 masters of a versioned plain class (column a UNIQUE, column c a ForeignKey): create, attribute '
+RULE = ('seeded random histories of 5..40 operations over 1..5 masters of a versioned plain class (column a UNIQUE, column c a ForeignKey, plus a '
+        'JSONCol and a DateTimeCol judged by value), in three connection modes -- class connection (60 %), every master created / every version '
+        'fetched with connection=conn2 while the class connection is a decoy database with masters of the same ids and their own versions (20 %), '
+        'through a Transaction of conn2 (20 %): create, attribute '
         'assignment, multi-column set (also empty, also values equal to the current ones), restore of a random existing version (of any '
         'master, also one equal to the current row, also twice the same); three streams: valid (the generator simulates the tables and '
         'keeps only operations that go through), failing (ill-typed updates, creations without the required column, restores of unknown '
@@ -35,6 +38,10 @@ TRUSTED_BASE = [
     'fixture: master columns a=IntCol(unique=True) b=StringCol(default=None) c=ForeignKey(other class, default=7; set and read through cID, never '
     'dereferenced, sqlite does not enforce it), eager (not lazyUpdate), no extraCols, no inheritance, '
     'masters are never destroyed; dateArchived is not compared',
+    'the JSONCol / DateTimeCol columns of the fixture are outside the Coq model: the oracle alone judges them, by value (python objects read from the '
+    'master and from every version against its own record of what each held when it was archived)',
+    'foreign modes: Model/Versioning.v wstep -- everything happens on the instance connection, the class database (decoy) is dumped after every '
+    'step and must stay as it was; sqlite :memory: databases, the Transaction is rolled back at the end of the case',
     'the correspondence harness tools/props/c20.py and the cases.v evaluation',
 ]
 
@@ -121,7 +128,16 @@ class _Sim(object):
         return x
 
 
-def gen_case(rng, stream):
+def rand_extras(rng):
+    x = {}
+    if rng.random() < 0.7:
+        x['j'] = rng.choice(SHADOW_J)
+    if rng.random() < 0.6:
+        x['t'] = rng.choice(SHADOW_T)
+    return x
+
+
+def gen_case(rng, stream, mode='class'):
     bad = 0.0 if stream == 'valid' else 0.08 if stream == 'kwrefused' else 0.2
     nm = rng.randint(1, 5)
     ops = []
@@ -134,7 +150,7 @@ def gen_case(rng, stream):
         masters, versions = len(sim.rows), len(sim.vers)
         if masters == 0 or (masters < nm and r < 0.25):
             need_a = not (stream != 'valid' and rng.random() < 0.3)
-            op = ['create', rand_kw(rng, bad, need_a)]
+            op = ['create', rand_kw(rng, bad, need_a), rand_extras(rng)]
         else:
             m = rng.randint(1, masters) if not (stream != 'valid' and rng.random() < 0.03) else masters + 1
             if r < 0.5 or (r >= 0.75 and versions == 0):
@@ -144,11 +160,14 @@ def gen_case(rng, stream):
                 op = ['set', m, rand_kw(rng, bad, False) if rng.random() < 0.92 else []]
                 if stream != 'valid' and rng.random() < (0.45 if stream == 'kwrefused' else 0.08):
                     op[0] = 'setbad'
+                elif rng.random() < 0.4:
+                    op.append(rand_extras(rng))
             else:
                 vid = rng.randint(1, versions) if not (stream != 'valid' and rng.random() < 0.05) else versions + 3
                 op = ['restore', vid]
         trial = sim.copy()
-        res = (trial.create(op[1]) if op[0] == 'create' else trial.restore(op[1]) if op[0] == 'restore' else
+        res = (trial.create(op[1]) if op[0] == 'create' else
+               trial.restore(op[1]) if op[0] == 'restore' else
                trial.refuse(op[1], op[2]) if op[0] == 'setbad' else
                trial.update(op[1], [[op[2], op[3]]] if op[0] == 'assign' else op[2]))
         if stream == 'valid' and res != 'ok':
@@ -160,7 +179,10 @@ def gen_case(rng, stream):
         if op[0] == 'restore' and res == 'ok' and rng.random() < 0.2 and stream != 'valid':
             ops.append(list(op))
             sim.restore(op[1])
-    return {'stream': stream, 'ops': ops}
+    case = {'stream': stream, 'ops': ops}
+    if mode != 'class':
+        case['mode'] = mode
+    return case
 
 
 def corpus():
@@ -176,6 +198,16 @@ def corpus():
         {'stream': 'kwrefused', 'ops': [['create', [[0, 1]]], ['setbad', 1, [[1, 'q']]]]},
         {'stream': 'kwrefused', 'ops': [['create', [[0, 1]]], ['assign', 1, 1, 'x'], ['setbad', 1, []], ['assign', 1, 2, 3], ['set', 1, [[0, 2]]],
                                         ['restore', 1]]},
+        # masters on a per-call connection / in a transaction while the class's own connection is another database with
+        # masters of the same ids: versions are read from and restore() acts on the master's connection (the second case is
+        # the witness of restore_ignores_version_connection, fixed by 61db062)
+        {'stream': 'valid', 'mode': 'perconn', 'ops': [['create', [[0, 1]], {'j': {'k': 1}}], ['assign', 1, 1, 'x'], ['create', [[0, 2]], {}],
+                                                       ['set', 2, [[2, 3]], {'t': '2001-02-03 04:05:06'}], ['assign', 1, 0, 5]]},
+        {'stream': 'valid', 'mode': 'txn', 'ops': [['create', [[0, 1]], {}], ['assign', 1, 1, 'x'], ['assign', 1, 0, 4], ['restore', 1],
+                                                   ['assign', 1, 2, 2]]},
+        # JSON / DateTime columns: archived and restored by value
+        {'stream': 'valid', 'ops': [['create', [[0, 1]], {'j': {'k': 1}, 't': '2001-02-03 04:05:06'}], ['assign', 1, 1, 'x'],
+                                    ['set', 1, [[0, 2]], {'j': [1, 'two', None], 't': None}], ['restore', 1], ['restore', 2]]},
         # restore of a version whose foreign key differs from the current one
         {'stream': 'valid', 'ops': [['create', [[0, 1], [2, 3]]], ['assign', 1, 2, 5], ['assign', 1, 1, 'x'], ['restore', 1], ['assign', 1, 0, 2]]},
         # two masters, interleaved updates, restore of an old version, restore of a version equal to the current row
@@ -187,11 +219,12 @@ def corpus():
 
 def generate(rng, tier):
     n = 900 if tier == 'quick' else 15000
-    return [gen_case(rng, ['valid', 'valid', 'failing', 'dbrefused', 'valid', 'kwrefused'][i % 6]) for i in range(n)]
+    return [gen_case(rng, ['valid', 'valid', 'failing', 'dbrefused', 'valid', 'kwrefused'][i % 6],
+                     ['class', 'perconn', 'class', 'txn', 'class'][i % 5]) for i in range(n)]
 
 
 def search_cases(rng, tier):
-    return [gen_case(rng, ['valid', 'failing', 'dbrefused', 'kwrefused'][i % 4]) for i in range(2500)]
+    return [gen_case(rng, ['valid', 'failing', 'dbrefused', 'kwrefused'][i % 4], ['class', 'perconn', 'txn'][i % 3]) for i in range(2500)]
 
 
 # ---------------------------------------------------------------- implementation side
@@ -200,44 +233,79 @@ EXC = {'Invalid': 'invalid', 'TypeError': 'typeerror', 'KeyError': 'keyerror', '
        'DuplicateEntryError': 'duplicate'}
 
 
+SHADOW_J = [None, {'k': 1}, [1, 'two', None], 'text', {'n': {'m': [True, 2.5]}}, 7]
+SHADOW_T = [None, '2001-02-03 04:05:06', '1999-12-31 23:59:59', '2024-02-29 00:00:00']
+
+
+def _t_in(t):
+    import datetime
+    return None if t is None else datetime.datetime.strptime(t, '%Y-%m-%d %H:%M:%S')
+
+
+def _t_out(t):
+    return None if t is None else (t.strftime('%Y-%m-%d %H:%M:%S') if hasattr(t, 'strftime') else 'not a datetime: %r' % (t,))
+
+
 def run_history(case):
-    from sqlobject import SQLObject, IntCol, StringCol, ForeignKey
+    from sqlobject import SQLObject, IntCol, StringCol, ForeignKey, JSONCol, DateTimeCol
     from sqlobject.versioning import Versioning
     from sqlobject.sqlite.sqliteconnection import SQLiteConnection
     _counter[0] += 1
-    conn = SQLiteConnection(':memory:')
+    mode = case.get('mode', 'class')
+    conn = SQLiteConnection(':memory:')             # the database of the history
+    # foreign modes: the class's own connection is another database (the decoy) that holds masters with the same ids
+    # and versions of their own; the masters of the history are created with connection=conn / through a Transaction of conn
+    decoy = SQLiteConnection(':memory:') if mode != 'class' else None
+    own = decoy if decoy is not None else conn
     name = 'VerifC20M%dx%d' % (os.getpid(), _counter[0])
     F = type(SQLObject)('VerifC20F%dx%d' % (os.getpid(), _counter[0]), (SQLObject,), {
-        '_connection': conn, 'label': StringCol(default=None)})
+        '_connection': own, 'label': StringCol(default=None)})
+    # js and ts (j, t in the cases) are codec columns outside the Coq model: judged by value by the oracle only
     M = type(SQLObject)(name, (SQLObject,), {
-        '_connection': conn,
+        '_connection': own,
         'a': IntCol(unique=True), 'b': StringCol(default=None), 'c': ForeignKey(F.__name__, default=7),
+        'js': JSONCol(default=None), 'ts': DateTimeCol(default=None),
         'versions': Versioning()})
     V = M.versions.versionClass
     F.createTable()
     M.createTable()
+    if decoy is not None:
+        F.createTable(connection=conn)
+        M.createTable(connection=conn)
+        for i in range(3):
+            d = M(a=101 + i)
+            d.b = 'd'
+        del d
+    work = conn.transaction() if mode == 'txn' else conn
+    ckw = {} if mode == 'class' else {'connection': work}
     mt, vt = M.sqlmeta.table, V.sqlmeta.table
     handles = {}
 
-    def dump():
-        raw = conn.getConnection()
-        cur = raw.cursor()
-        cur.execute('SELECT id, a, b, c_id FROM %s ORDER BY id' % mt)
-        ms = [list(r) for r in cur.fetchall()]
-        cur.execute('SELECT id, master_id, a, b, c_id FROM %s ORDER BY id' % vt)
-        vs = [list(r) for r in cur.fetchall()]
-        cur.close()
-        conn.releaseConnection(raw)
+    def dump(cn):
+        ms = [list(r) for r in cn.queryAll('SELECT id, a, b, c_id FROM %s ORDER BY id' % mt)]
+        vs = [list(r) for r in cn.queryAll('SELECT id, master_id, a, b, c_id FROM %s ORDER BY id' % vt)]
         return ms, vs
+
+    def extras(x):
+        d = {}
+        if x:
+            if 'j' in x:
+                d['js'] = x['j']
+            if 't' in x:
+                d['ts'] = _t_in(x['t'])
+        return d
 
     def do(op):
         t = op[0]
         if t == 'create':
-            o = M(**dict((COLS[c], v) for c, v in op[1]))
+            kw = dict((COLS[c], v) for c, v in op[1])
+            kw.update(extras(op[2] if len(op) > 2 else None))
+            kw.update(ckw)
+            o = M(**kw)
             handles[o.id] = o
             return 'done'
         if t == 'restore':
-            V.get(op[1]).restore()
+            V.get(op[1], **ckw).restore()
             return 'done'
         o = handles.get(op[1])
         if o is None:
@@ -245,14 +313,23 @@ def run_history(case):
         if t == 'assign':
             setattr(o, COLS[op[2]], op[3])
         elif t == 'set':
-            o.set(**dict((COLS[c], v) for c, v in op[2]))
+            kw = dict((COLS[c], v) for c, v in op[2])
+            kw.update(extras(op[3] if len(op) > 3 else None))
+            o.set(**kw)
         elif t == 'setbad':
             o.set(zz=1, **dict((COLS[c], v) for c, v in op[2]))      # zz: neither a column nor an attribute
         else:
             raise ValueError('unknown op %r' % (op,))
         return 'done'
 
+    def jt(x):
+        try:
+            return [x.js, _t_out(x.ts)]
+        except Exception as e:  # noqa
+            return ['unreadable', type(e).__name__]
+
     steps = []
+    prev_decoy = dump(decoy) if decoy is not None else None
     try:
         for op in case['ops']:
             try:
@@ -260,15 +337,29 @@ def run_history(case):
             except Exception as e:  # noqa
                 nm = type(e).__name__
                 out = ['exn', EXC.get(nm, 'other:' + nm)]
-            ms, vs = dump()
-            api = [[i, [[v.id, v.masterID, v.a, v.b, v.cID] for v in o.versions]] for i, o in sorted(handles.items())]
-            steps.append({'out': out, 'masters': ms, 'versions': vs, 'api': api})
+            ms, vs = dump(work)
+            api = [[i, [[v.id, v.masterID, v.a, v.b, v.cID] + jt(v) for v in o.versions]] for i, o in sorted(handles.items())]
+            step = {'out': out, 'masters': ms, 'versions': vs, 'api': api, 'mpy': [[i] + jt(o) for i, o in sorted(handles.items())]}
+            if decoy is not None:
+                dd = dump(decoy)
+                if dd != prev_decoy:
+                    step['decoy'] = [dd[0], dd[1]]
+                    prev_decoy = dd
+            steps.append(step)
     finally:
-        conn.cache.clear()
-        try:
-            conn.close()
-        except Exception:  # noqa
-            pass
+        handles.clear()
+        if mode == 'txn':
+            try:
+                work.rollback()
+            except Exception:  # noqa
+                pass
+        for cn in (conn, decoy):
+            if cn is not None:
+                cn.cache.clear()
+                try:
+                    cn.close()
+                except Exception:  # noqa
+                    pass
     return {'steps': steps}
 
 
@@ -343,15 +434,19 @@ def coq_case(c, o):
         else:
             vnew, vfull = [], '(Some [%s])' % '; '.join(cvrow(r) for r in vs)
         byid = dict((r[0], r) for r in vs)
-        rows_ok = all(byid.get(v[0]) == v for _m, lst in s['api'] for v in lst)
-        steps.append('(Build_vobs %s %s [%s] [%s] %s [%s] %s)' % (
+        rows_ok = all(byid.get(v[0]) == v[:5] for _m, lst in s['api'] for v in lst)
+        dec = 'None'
+        if s.get('decoy'):
+            dec = '(Some ([%s], [%s]))' % ('; '.join('(%s, %s)' % (z(r[0]), crow(r[1:])) for r in s['decoy'][0]),
+                                           '; '.join(cvrow(r) for r in s['decoy'][1]))
+        steps.append('(Build_vobs %s %s [%s] [%s] %s [%s] %s %s)' % (
             cop(op), oc,
             '; '.join('(%s, %s)' % (z(r[0]), crow(r[1:])) for r in s['masters']),
             '; '.join(cvrow(r) for r in vnew), vfull,
             '; '.join('(%s, [%s])' % (z(i), '; '.join(z(v[0]) for v in lst)) for i, lst in s['api']),
-            'true' if rows_ok else 'false'))
+            'true' if rows_ok else 'false', dec))
         prev = vs
-    return '[%s]' % ';\n '.join(steps)
+    return '(Build_case %s [%s])' % ('true' if c.get('mode', 'class') != 'class' else 'false', ';\n '.join(steps))
 
 
 # ---------------------------------------------------------------- oracle: the property judged on the observation
@@ -371,9 +466,13 @@ def oracle(c, o):
     db_refused = set()              # masters one of whose updates the DATABASE refused (open finding)
     kw_refused = set()              # masters one of whose set() calls was refused for an unknown keyword (open finding)
     first_known = None
+    foreign = c.get('mode', 'class') != 'class'
+    cur_sh, vshadow = {}, {}        # the codec columns j, t (outside the Coq model): current values per master, values per version id
     for i, (op, s) in enumerate(zip(c['ops'], o['steps'])):
         ms = dict((r[0], r[1:]) for r in s['masters'])
-        api = dict((m, vs) for m, vs in s['api'])
+        api = dict((m, [v[:5] for v in vs]) for m, vs in s['api'])
+        apix = dict((m, vs) for m, vs in s['api'])
+        sh_before = dict(cur_sh)
         pm = dict((r[0], r[1:]) for r in prev_m)
         out = s['out']
         f = None
@@ -401,6 +500,8 @@ def oracle(c, o):
                     f = {'what': 'the created row', 'actual': s['masters']}
                 else:
                     hist[new[0]] = [ms[new[0]]]
+                    x = op[2] if len(op) > 2 and op[2] else {}
+                    cur_sh[new[0]] = [x.get('j'), x.get('t')]
         else:
             if t == 'restore':
                 ver = [r for r in s['versions'] if r[0] == op[1] and r[0] in [x[0] for vs in prev_api.values() for x in vs]]
@@ -440,6 +541,10 @@ def oracle(c, o):
             elif out == 'done':
                 before = prev_api.get(target, [])
                 after = api.get(target, [])
+                if t == 'restore':
+                    cur_sh[target] = list(vshadow.get(op[1], cur_sh.get(target)))
+                elif t == 'set' and len(op) > 3 and op[3]:
+                    cur_sh[target] = [op[3].get('j', cur_sh[target][0]), op[3].get('t', cur_sh[target][1])]
                 if ms.get(target) != want:
                     f = {'what': 'the master row after the update' + (' (restore: must equal the version)' if t == 'restore' else ''),
                          'expected': want, 'actual': ms.get(target)}
@@ -448,6 +553,24 @@ def oracle(c, o):
                     f = {'what': 'a successful update must append exactly one version holding the previous row',
                          'expected': before + [['<new id>', target] + pm[target]], 'actual': after}
                 hist[target].append(ms[target])
+        # the codec columns, by value: a version archived now holds what its master held before this step
+        for m, vs in apix.items():
+            for v in vs:
+                if v[0] not in vshadow:
+                    vshadow[v[0]] = list(sh_before.get(m, [None, None]))
+        if not f:
+            mpy = dict((x[0], x[1:]) for x in s.get('mpy', []))
+            for m in sorted(ms):
+                if m in cur_sh and mpy.get(m) != cur_sh[m]:
+                    f = {'what': 'the JSON / DateTime columns of the master differ (by value) from what was stored', 'master': m,
+                         'expected': cur_sh[m], 'actual': mpy.get(m)}
+                    break
+                got = [v[5:] for v in apix.get(m, [])]
+                exp = [vshadow[v[0]] for v in apix.get(m, [])]
+                if got != exp:
+                    f = {'what': 'the JSON / DateTime columns of the versions differ (by value) from the states archived', 'master': m,
+                         'expected': exp, 'actual': got}
+                    break
         # the history invariant, for every master, after every step
         if not f:
             for m in sorted(ms):
@@ -497,14 +620,15 @@ def nontrivial(c, o):
 
 
 def key(c):
-    return c['ops']
+    return [c.get('mode', 'class'), c['ops']]
 
 
 def distribution(cases, obs):
-    d = {'streams': {}, 'ops': {}, 'outcomes': {}, 'masters': {}, 'versions_total': 0, 'restores_equal_to_current': 0,
+    d = {'modes': {}, 'streams': {}, 'ops': {}, 'outcomes': {}, 'masters': {}, 'versions_total': 0, 'restores_equal_to_current': 0,
          'refused_updates': 0, 'empty_sets': 0}
     for c, o in zip(cases, obs):
         d['streams'][c['stream']] = d['streams'].get(c['stream'], 0) + 1
+        d['modes'][c.get('mode', 'class')] = d['modes'].get(c.get('mode', 'class'), 0) + 1
         if not isinstance(o, dict) or 'steps' not in o:
             continue
         prev = []
